@@ -302,7 +302,18 @@ func scPKI(r *Run) {
 		ik := keys.GenerateNewSigningKeyPair()
 		var iFrom, iTo, lFrom, lTo time.Time
 		d := func(max int) time.Duration { return time.Duration(1+r.Intn("unnested", max)) * time.Second }
-		switch r.Intn("unnested", 3) {
+		rootFrom, rootTo := time.Unix(rt.rec.issued, 0), time.Unix(rt.rec.expires, 0)
+		switch r.Intn("unnested", 5) {
+		case 3: // the intermediate OUTLIVES its root, the leaf ends long before both
+			iFrom = now.Add(-d(1000))
+			iTo = rootTo.Add(d(5000000))
+			lFrom = now
+			lTo = now.Add(d(100000))
+		case 4: // the intermediate PREDATES its root, the leaf starts later than both
+			iFrom = rootFrom.Add(-d(5000000))
+			iTo = now.Add(d(5000000))
+			lFrom = now.Add(d(100000))
+			lTo = lFrom.Add(d(100000))
 		case 0: // intermediate starts later than its leaf
 			iFrom = now.Add(d(100000))
 			iTo = iFrom.Add(d(1000000))
@@ -338,6 +349,21 @@ func scPKI(r *Run) {
 		leaves = append(leaves, &pkiNode{lrec, l})
 		mark(lrec)
 		r.CountFault("cert-unnested-validity", 1)
+	}
+	// a leaf issued DIRECTLY by a root (really signed by it, naming it as parent): no verification may take a
+	// root-type certificate as the issuer of a leaf
+	for q := 0; q < r.Intn("cfg", 2) && len(roots) > 0; q++ {
+		rt := roots[r.Intn("direct", len(roots))]
+		lk := newX25519()
+		l, err := certs.VerifIssue(rt.obj, &certs.Identity{PublicKey: lk.Public, Names: []certs.Name{drawName("names")}}, certs.Leaf, time.Now(), 100*24*time.Hour)
+		if err != nil {
+			continue
+		}
+		lrec := newRec(fmt.Sprintf("leaf-directly-under-%s", rt.rec.name), marshal(l), rt.rec)
+		allRecs = append(allRecs, lrec)
+		leaves = append(leaves, &pkiNode{lrec, l})
+		mark(lrec)
+		r.CountFault("cert-leaf-issued-directly-by-root", 1)
 	}
 	// forged intermediates: signed with a key of the attacker's own, but NAMING a trusted root as parent; the
 	// leaf under it is signed correctly with the forged intermediate's key.  Only the intermediate-to-root
